@@ -265,6 +265,9 @@ def replay(ctx, case):
     from vlib import refquic as R
 
     ctx.case(None, True)
+    if case.get("kind") == "pnlive":
+        ctx.case(None, True)
+        return pn_live_case(ctx, dict(case, rounds=[dict(r, packets=[tuple(x) for x in r["packets"]], swaps=[tuple(x) for x in r["swaps"]]) for r in case["rounds"]]))
     if case.get("kind") == "pn":
         got = decode_packet_number(case["truncated"], case["bits"], case["expected"])
         if not closest_ok(case["truncated"], case["bits"], case["expected"], got):
@@ -303,6 +306,114 @@ def replay(ctx, case):
         tamper.replay(ctx, case)
 
 
+def pn_live_case(ctx, case):
+    """Packets from a key-holding peer with truncated packet numbers of 1-4 bytes, each long enough for what the endpoint had acknowledged when the packet
+    was built (RFC 9000 17.1), delivered late / out of order: every packet that the RFC 9000 A.3 algorithm decodes relative to the largest packet number
+    *received so far* must be accepted (acknowledged)."""
+    from vlib import endpoints as E, refquic as R
+    from vlib.takeover import Takeover
+
+    with E.pinned(("c02-pnlive", case["role"])):
+        tk = Takeover(case["role"])
+        largest_delivered = tk.pn - 1  # the genuine peer's packets so far
+        largest_acked = tk.pn - 1
+        top = tk.pn + case["start"]
+        held = []
+        delivered = set()
+        acked = set()
+        skipped = 0
+
+        def harvest():
+            nonlocal largest_acked
+            for _ in range(3):
+                t = tk.sut.get_timer()
+                views = list(tk.collect())
+                for v in views:
+                    for f in v.frames or []:
+                        if f["name"] == "ack" and v.space == "app":
+                            for lo, hi in f["acked"]:
+                                for p in range(max(lo, min(delivered | {lo}) if delivered else lo), hi + 1):
+                                    if p in delivered:
+                                        acked.add(p)
+                if t is None or t > tk.now + 0.03:
+                    break
+                tk.now = max(tk.now, t) + 0.0005
+                tk.sut.handle_timer(now=tk.now)
+                tk.drain_events()
+            if acked:
+                largest_acked = max(largest_acked, max(acked))
+
+        def deliver(pn, pn_len, pkt):
+            nonlocal largest_delivered, skipped
+            trunc = pn & ((1 << (8 * pn_len)) - 1)
+            if R.decode_pn(trunc, 8 * pn_len, largest_delivered + 1) != pn:
+                skipped += 1  # too late for its encoding: the receiver cannot be expected to recover it
+                return
+            tk.deliver(pkt)
+            delivered.add(pn)
+            largest_delivered = max(largest_delivered, pn)
+
+        for rnd in case["rounds"]:
+            built = []
+            for gap, pn_len in rnd["packets"]:
+                top += 1 + gap
+                need = top - largest_acked
+                if need >= 1 << (8 * pn_len - 1):
+                    pn_len = 4 if need >= 1 << 23 else 3 if need >= 1 << 15 else 2 if need >= 1 << 7 else pn_len
+                    if need >= 1 << (8 * pn_len - 1):
+                        continue
+                pkt, _ = tk.build_packet(R.encode_frames([{"name": "ping"}]), pn=top, pn_len=pn_len)
+                built.append((top, pn_len, pkt))
+            order = list(range(len(built)))
+            for i, j in rnd["swaps"]:
+                if built:
+                    a, b = i % len(built), j % len(built)
+                    order[a], order[b] = order[b], order[a]
+            hold = {h % len(built) for h in rnd["hold"]} if built else set()
+            # late packets of the previous round arrive first or in the middle
+            late, held = held, []
+            mid = len(order) // 2 if rnd["late_in_middle"] else 0
+            for k, idx in enumerate(order):
+                if k == mid:
+                    for x in late:
+                        deliver(*x)
+                    late = []
+                if idx in hold:
+                    held.append(built[idx])
+                else:
+                    deliver(*built[idx])
+            for x in late:
+                deliver(*x)
+            harvest()
+            if tk.terminated is not None or tk.sut._close_event is not None:
+                break
+        harvest()
+        missing = sorted(delivered - acked)
+        if missing and tk.terminated is None and tk.sut._close_event is None:
+            ctx.violation(
+                "genuine-packet-with-truncated-number-not-accepted",
+                "%s: %d of %d delivered packets were never acknowledged, e.g. packet %d; every one of them decodes correctly relative to the largest packet number received before it" % (case["role"], len(missing), len(delivered), missing[0]),
+                case,
+            )
+        ctx.case(("pnlive", repr(case)), nontrivial=len(delivered) >= 5 and any(r["hold"] for r in case["rounds"]), classes=["pnlive:" + case["role"], "pnlive:skipped" if skipped else "pnlive:all-decodable"])
+
+
+def pn_live_task(ctx, examples, shard):
+    from hypothesis import strategies as st
+    from vlib.harness import run_hypothesis
+
+    pkt = st.tuples(st.sampled_from([0, 0, 0, 1, 5, 30, 100, 3000]), st.sampled_from([1, 1, 1, 2, 2, 3, 4]))
+    rnd = st.fixed_dictionaries({"packets": st.lists(pkt, min_size=1, max_size=10), "swaps": st.lists(st.tuples(st.integers(0, 9), st.integers(0, 9)), max_size=4), "hold": st.lists(st.integers(0, 9), max_size=2), "late_in_middle": st.booleans()})
+    strat = st.fixed_dictionaries({"kind": st.just("pnlive"), "role": st.sampled_from(["server", "client"]), "start": st.sampled_from([0, 0, 100, 40000, 70000]), "rounds": st.lists(rnd, min_size=2, max_size=6)})
+
+    def body(ctx, case):
+        pn_live_case(ctx, case)
+        if ctx.want_sample():
+            ctx.sample(case)
+
+    run_hypothesis(ctx, body, strat, examples, shard=shard)
+
+
 def plan(tier, seed):
     q = tier == "quick"
     t = []
@@ -312,6 +423,8 @@ def plan(tier, seed):
     for p in range(3):
         t.append(("pn-exhaustive-8bit-%d" % p, {"fn": "pnx", "part": p, "nparts": 3}))
     t.append(("pn-random", {"fn": "pnr", "examples": 20000 if q else 400000, "shard": 0}))
+    for sh in range(2):
+        t.append(("pn-live-%d" % sh, {"fn": "pnlive", "examples": 150 if q else 6000, "shard": sh}))
     try:
         from vlib import tamper
 
@@ -330,6 +443,8 @@ def run_task(ctx, name, fn, **kw):
         pn_exhaustive(ctx, kw["part"], kw["nparts"])
     elif fn == "pnr":
         pn_random(ctx, kw["examples"], kw["shard"])
+    elif fn == "pnlive":
+        pn_live_task(ctx, kw["examples"], kw["shard"])
     else:
         from vlib import tamper
 
